@@ -666,7 +666,7 @@ def strategy(tier, kinds=None):
 
 def units(tier, seed):
     n = 4 if tier == 'quick' else 64
-    per = 84 if tier == 'quick' else 300
+    per = 72 if tier == 'quick' else 300
     return [{'kind': 'random', 'n': per, 'seed': core.shard_seed(seed, ID, i)} for i in range(n)]
 
 
